@@ -21,23 +21,121 @@ Definition E (t1 t2 : value) (q : path) : list entry * list path :=
 Definition D (T1 T2 t1 t2 : value) (q : path) : delta :=
   to_delta conv bidir always ops T1 T2 (mutual (fst (E t1 t2 q))) (snd (E t1 t2 q)).
 
-(* the run of the delta d (paths cut by n leading keys) on t1 ends, for every
+(* the run of the delta d (paths cut by n leading keys) on the base v ends, for every
    admissible visiting order of the sorted passes, without error in t2 *)
-Definition GoodD (d : delta) (n : nat) (t1 t2 : value) : Prop :=
-  d_moved d = [] /\
+Definition runs_to (d : delta) (n : nat) (v t2 : value) : Prop :=
   forall P, Arr (sbase n d) P ->
-    errs (finish conv bidir (run_passes conv bidir P (mkSt t1 [] 0))) = 0 /\
-    veqb (root (finish conv bidir (run_passes conv bidir P (mkSt t1 [] 0)))) t2 = true.
-
-Definition Good (t1 t2 : value) (q : path) : Prop :=
-  forall T1 T2, resolve T1 q = Some t1 -> resolve T2 q = Some t2 ->
-    GoodD (D T1 T2 t1 t2 q) (length q) t1 t2.
+    errs (finish conv bidir (run_passes conv bidir P (mkSt v [] 0))) = 0 /\
+    veqb (root (finish conv bidir (run_passes conv bidir P (mkSt v [] 0)))) t2 = true.
 
 (* a type change whose values are omitted is rebuilt by the constructor call:
    the result must be the new value, not merely == to it (finding F7 and its family) *)
 Definition tc_guard (t1 t2 : value) : Prop :=
   bidir || always = true \/
   forall v', conv (type_of t2) t1 = Some v' -> py_eqv v' t2 = true -> veqb v' t2 = true.
+
+(* the same for a base v that equals t1 up to dict / set order: the constructor is called
+   on the CURRENT value, so it has to rebuild t2 from v as well *)
+Definition tc_b (v t1 t2 : value) : Prop :=
+  bidir || always = true \/
+  forall a', conv (type_of t2) t1 = Some a' -> py_eqv a' t2 = true ->
+    exists v', conv (type_of t2) v = Some v' /\ veqb v' t2 = true.
+
+(* [tc_b] along the pairing of the ordered diff (the shape of [okp] below) *)
+Fixpoint okb (v t1 t2 : value) {struct t1} : Prop :=
+  match t1, t2, v with
+  | VList xs, VList ys, VList vs =>
+      (fix go (xs ys vs : list value) {struct xs} : Prop :=
+         match xs, ys, vs with
+         | x :: xs', y :: ys', w :: vs' => okb w x y /\ go xs' ys' vs'
+         | _, _, _ => True
+         end) xs ys vs
+  | VTuple _, VTuple _, _ => True
+  | VDict kvs1, VDict kvs2, VDict kvb =>
+      (fix go (l : list (atom * value)) : Prop :=
+         match l with
+         | [] => True
+         | (k, v1) :: r =>
+             match assoc k kvs2, assoc k kvb with Some v2, Some w => okb w v1 v2 | _, _ => True end /\ go r
+         end) kvs1
+  | _, _, _ => if ty_eqb (type_of t1) (type_of t2) then True else tc_b v t1 t2
+  end.
+
+Definition okb_list := fix go (xs ys vs : list value) {struct xs} : Prop :=
+  match xs, ys, vs with
+  | x :: xs', y :: ys', w :: vs' => okb w x y /\ go xs' ys' vs'
+  | _, _, _ => True
+  end.
+Definition okb_dict (kvs2 kvb : list (atom * value)) := fix go (l : list (atom * value)) : Prop :=
+  match l with
+  | [] => True
+  | (k, v1) :: r => match assoc k kvs2, assoc k kvb with Some v2, Some w => okb w v1 v2 | _, _ => True end /\ go r
+  end.
+Lemma okb_list_eq vs xs ys : okb (VList vs) (VList xs) (VList ys) = okb_list xs ys vs.
+Proof. reflexivity. Qed.
+Lemma okb_dict_eq kvb kvs1 kvs2 : okb (VDict kvb) (VDict kvs1) (VDict kvs2) = okb_dict kvs2 kvb kvs1.
+Proof. reflexivity. Qed.
+
+Lemma okb_list_nth vs xs ys : okb (VList vs) (VList xs) (VList ys) ->
+  forall k w x y, nth_error vs k = Some w -> nth_error xs k = Some x -> nth_error ys k = Some y -> okb w x y.
+Proof.
+  rewrite okb_list_eq. revert ys vs. induction xs as [|x0 xs IH]; intros ys vs H k w x y Hw Hx Hy; [destruct k; discriminate|].
+  destruct ys as [|y0 ys]; [destruct k; discriminate|]. destruct vs as [|w0 vs]; [destruct k; discriminate|].
+  cbn in H. destruct H as [H0 H]. destruct k as [|k]; cbn in Hw, Hx, Hy.
+  - inversion Hw; inversion Hx; inversion Hy; subst. exact H0.
+  - apply (IH ys vs H k w x y Hw Hx Hy).
+Qed.
+
+Lemma okb_dict_in kvb kvs1 kvs2 : okb (VDict kvb) (VDict kvs1) (VDict kvs2) ->
+  forall k v1 v2 w, In (k, v1) kvs1 -> assoc k kvs2 = Some v2 -> assoc k kvb = Some w -> okb w v1 v2.
+Proof.
+  rewrite okb_dict_eq. induction kvs1 as [|[k0 v0] l IH]; intros H k v1 v2 w Hin A2 Ab; [destruct Hin|].
+  cbn in H. destruct H as [H0 H]. destruct Hin as [E|Hin].
+  - inversion E; subst. rewrite A2, Ab in H0. exact H0.
+  - apply (IH H k v1 v2 w Hin A2 Ab).
+Qed.
+
+Lemma okb_tc v t1 t2 : ty_eqb (type_of t1) (type_of t2) = false -> okb v t1 t2 -> tc_b v t1 t2.
+Proof.
+  intros T H. destruct t1, t2; cbn in T; try discriminate T; destruct v; cbn in H; try rewrite T in H; exact H.
+Qed.
+
+(* [okb] from [tc_b] at every node *)
+Lemma okb_of_tc : (forall v t1 t2, tc_b v t1 t2) -> forall t1 t2 v, okb v t1 t2.
+Proof.
+  intros F.
+  assert (TC : forall v t1 t2, (if ty_eqb (type_of t1) (type_of t2) then True else tc_b v t1 t2)).
+  { intros v t1 t2. destruct (ty_eqb _ _); [exact I|apply F]. }
+  induction t1 as [a|xs IH|xs IH|kvs IH|xs|xs] using value_ind'; intros t2 v.
+  - destruct t2, v; apply (TC _ (VAtom a)).
+  - destruct t2; try (destruct v; apply (TC _ (VList xs))). destruct v; try (cbn; exact I).
+    rewrite okb_list_eq. revert xs0 xs1. induction IH as [|x xs Hx _ IHl]; intros ys vs; [exact I|].
+    destruct ys; [exact I|]. destruct vs; [exact I|]. cbn. split; [apply Hx|apply IHl].
+  - destruct t2; try (destruct v; apply (TC _ (VTuple xs))). destruct v; exact I.
+  - destruct t2; try (destruct v; apply (TC _ (VDict kvs))). destruct v; try (cbn; exact I).
+    rewrite okb_dict_eq. induction IH as [|[k v] l Hk _ IHl]; [exact I|]. cbn. split; [|exact IHl].
+    destruct (assoc k kvs0); [|exact I]. destruct (assoc k kvs1); [apply Hk|exact I].
+  - destruct t2, v; apply (TC _ (VSet xs)).
+  - destruct t2, v; apply (TC _ (VFrozen xs)).
+Qed.
+
+(* nothing is asked when the values are stored in the delta *)
+Lemma okb_flags : bidir || always = true -> forall t1 t2 v, okb v t1 t2.
+Proof. intros F. apply okb_of_tc. intros v t1 t2. left. exact F. Qed.
+
+(* from t1 itself *)
+Definition GoodD0 (d : delta) (n : nat) (t1 t2 : value) : Prop := d_moved d = [] /\ runs_to d n t1 t2.
+(* from every well-formed base that equals t1 up to dict / set order (and rebuilds the
+   omitted values of type changes, [okb]) *)
+Definition GoodD (d : delta) (n : nat) (t1 t2 : value) : Prop :=
+  d_moved d = [] /\ forall v, wf v = true -> veqb v t1 = true -> okb v t1 t2 -> runs_to d n v t2.
+
+Lemma GoodD0_exact d n t1 t2 : ordfree t1 = true -> GoodD0 d n t1 t2 -> GoodD d n t1 t2.
+Proof. intros O [Hm H]. split; [exact Hm|]. intros v _ V _. apply veqb_ordfree in V; [|exact O]. subst v. exact H. Qed.
+
+Definition Good (t1 t2 : value) (q : path) : Prop :=
+  forall T1 T2, resolve T1 q = Some t1 -> resolve T2 q = Some t2 ->
+    GoodD (D T1 T2 t1 t2 q) (length q) t1 t2.
 
 (* the guard along the pairing of the ordered diff: tuples hold atoms only and keep
    their length (findings F4/F6); type changes satisfy [tc_guard] *)
@@ -144,14 +242,23 @@ Proof.
   unfold run_passes. cbn [fold_left]. rewrite !map_app, !irun_app. reflexivity.
 Qed.
 
+Lemma runs_inplace d n v t2 :
+  d_irem d = [] -> d_iadd d = [] -> d_dadd d = [] -> d_drem d = [] ->
+  errs (finish conv bidir (irun conv bidir (map (istrip n) (p1 d ++ p2 d ++ p3 d ++ p4 d ++ p5 d)) (mkSt v [] 0))) = 0 ->
+  veqb (root (finish conv bidir (irun conv bidir (map (istrip n) (p1 d ++ p2 d ++ p3 d ++ p4 d ++ p5 d)) (mkSt v [] 0)))) t2 = true ->
+  runs_to d n v t2.
+Proof.
+  intros H6 H7 H8 H9 HE HV P HA.
+  rewrite (Arr_inplace d n P H6 H7 H8 H9 HA). split; assumption.
+Qed.
+
 Lemma GoodD_inplace d n t1 t2 :
   d_moved d = [] -> d_irem d = [] -> d_iadd d = [] -> d_dadd d = [] -> d_drem d = [] ->
   errs (finish conv bidir (irun conv bidir (map (istrip n) (p1 d ++ p2 d ++ p3 d ++ p4 d ++ p5 d)) (mkSt t1 [] 0))) = 0 ->
   veqb (root (finish conv bidir (irun conv bidir (map (istrip n) (p1 d ++ p2 d ++ p3 d ++ p4 d ++ p5 d)) (mkSt t1 [] 0)))) t2 = true ->
-  GoodD d n t1 t2.
+  GoodD0 d n t1 t2.
 Proof.
-  intros Hm H6 H7 H8 H9 HE HV. split; [exact Hm|]. intros P HA.
-  rewrite (Arr_inplace d n P H6 H7 H8 H9 HA). split; assumption.
+  intros Hm H6 H7 H8 H9 HE HV. split; [exact Hm|]. apply runs_inplace; assumption.
 Qed.
 
 End Good.
